@@ -169,10 +169,10 @@ def run(tier):
         except Exception as exc:  # pylint: disable=broad-except
             chk.violation("idempotent", dict(feat, exception2=type(exc).__name__), rec, f"{label}: the returned configuration is rejected: {exc!r}")
 
-    # every single behaviour (quick: a seeded sample of 900; thorough: all)
+    # every single behaviour
     order = list(range(len(behs)))
     rng.shuffle(order)
-    singles = order if tier == "thorough" else order[:900]
+    singles = order                # every enumerated behaviour, in both tiers (a few seconds)
     for i in singles:
         b = behs[i]
         chk.count((b["kind"], b["method"], str(b["cfg"]), b["multiband"]))
@@ -182,7 +182,7 @@ def run(tier):
     for i in singles[:3]:
         chk.sample({"behaviour": behs[i]})
     # pairs of varied steps of different kinds in one pipeline
-    npairs = 250 if tier == "quick" else 4000
+    npairs = 1000 if tier == "quick" else 8000
     for j in range(npairs):
         a, b = behs[rng.randint(len(behs))], behs[rng.randint(len(behs))]
         if a["kind"] == b["kind"] or (a["multiband"] != b["multiband"] and "matching_cost" in (a["kind"], b["kind"])):
